@@ -27,8 +27,55 @@ THOROUGH = {
     "tlc_timeout": 3000,
    }
 
+def apalache(ck):
+    """Unbounded part: the UID allocation discipline (spec/apalache/UidAlloc.tla, the abstraction of what
+    MailStore's ResyncRes / DoAppend / CopyMove do with `next`) has an inductive invariant that implies
+    C02's ascending / never reused / UIDNEXT above all - checked with Apalache (Init implies IndInv;
+    IndInv and Next imply IndInv'; the action invariants from any IndInv state), plus a negative control."""
+    import shutil, subprocess, tempfile, time
+    if not shutil.which("apalache-mc"):
+        ck.cov["apalache"] = {"run": False, "why": "apalache-mc not on PATH"}
+        return
+    spec = os.path.join(lib.ROOT, "spec", "apalache")
+    out = tempfile.mkdtemp(prefix="verif-apa-")
+    runs = [("UidAlloc", "Init", "IndInv", 0, True), ("UidAlloc", "IndInit", "IndInv", 1, True),
+            ("UidAlloc", "IndInit", "NextAboveAll", 0, True), ("UidAlloc", "IndInit", "NeverReusedAct", 1, True),
+            ("UidAlloc", "IndInit", "NextNeverDecreasesAct", 1, True),
+            ("UidAllocBad", "IndInit", "IndInv", 1, False)]          # UIDNEXT raised by one too few: must be rejected
+    res = []
+    try:
+        for mod, init, inv, length, want_ok in runs:
+            t0 = time.time()
+            try:
+                p = subprocess.run(["apalache-mc", "check", f"--init={init}", f"--inv={inv}", f"--length={length}",
+                                    f"--out-dir={out}", f"{mod}.tla"], cwd=spec, capture_output=True, text=True, timeout=900)
+                txt = p.stdout + p.stderr
+                ok = "EXITCODE: OK" in txt
+                viol = "EXITCODE: ERROR (12)" in txt
+            except subprocess.TimeoutExpired:
+                txt, ok, viol = "timeout", False, False
+            res.append({"module": mod, "init": init, "inv": inv, "length": length, "holds": ok, "violated": viol,
+                        "expected_to_hold": want_ok, "wall_s": round(time.time() - t0, 1)})
+            if want_ok and viol:
+                ck.violation("C02.ModelViolatesProperty", act="model", where=f"apalache {mod} {inv}",
+                             detail=f"Apalache: {inv} does not hold from {init} (length {length})",
+                             replay_obj={"apalache": txt[-4000:]})
+            elif want_ok and not ok:
+                ck.assumptions.append(f"Apalache run {mod}/{init}/{inv} did not finish ({txt[-120:].strip()!r}); not counted")
+            elif not want_ok and ok:
+                raise RuntimeError(f"negative control {mod} was accepted by Apalache: {txt[-300:]}")
+            elif not want_ok and not viol:
+                ck.assumptions.append(f"Apalache negative control {mod} did not finish; not counted")
+    finally:
+        shutil.rmtree(out, ignore_errors=True)
+    ck.cov["apalache"] = {"run": True, "checker": "apalache-mc check --init=.. --inv=.. --length=0|1",
+                          "note": "inductive invariant: holds for histories of any length; the arbitrary pre-state of the "
+                                  "inductive step is bounded by Gen(5) messages / Gen(8) assigned UIDs", "runs": res}
+
+
 def fn(ck, a):
     mailfam.run_family(ck, ["C02."], model_prop="P_C0203", quick=QUICK, thorough=THOROUGH)
+    apalache(ck)
 
 if __name__ == "__main__":
     lib.main(fn, "C02")
